@@ -42,7 +42,7 @@ WHAT = {
 }
 CORPUS = os.path.join(core.VERIF, "corpus", "producer")
 TRUSTED = [
-    "the Producer is modelled against the client INTERFACE (ClientIface, harness/lib/client_iface.md): the composition Producer x KafkaClient is by contract (in Lean only the produce-result kernel is composed, C09_composed_retry_only_failed); on the code it is checked by the full-stack stage: ground-truth monitors and replay of the Producer/KafkaClient boundary trace to the model (harness/lib/producer_fstrace.py: a recording proxy, trusted to be transparent)",
+    "the Producer is modelled against the client INTERFACE (ClientIface, harness/lib/client_iface.md); in Lean the seam send_produce_request is composed with the client package's routing and assembling kernels (C09_composed_retry_only_failed; the product machine Afkak/ProducerCompose.lean, C01_composed_*), the rest of the client is not; on the code it is checked by the full-stack stage: ground-truth monitors, replay of the Producer/KafkaClient boundary trace to the model, and the composed client call `sendProduce` compared with every send_produce_request of the real client (harness/lib/producer_fstrace.py: a recording proxy at both sides of the client, trusted to be transparent)",
     "fake client of the scripted environment (harness/lib/producer_fakeclient.py) and its reproduction of the real client's cancel outcomes",
     "Twisted Deferred/inlineCallbacks/DeferredList/LoopingCall semantics as folded into the model's handlers; timers are abstract (set/fire), 'timers fire when due' is assumed",
     "snapshots of the real Producer's private bookkeeping fields (_batch_reqs, _waitingMsgCount, ...) read after every event",
@@ -68,7 +68,14 @@ def trace_lines(real, monitors):
     markers are dropped and `sendh` reads `send`; only monitors that do not depend on the atomicity of a step are
     evaluated on it (the flat monitors are theorems of the flat model)."""
     tl = ["reset", D.cfg_line(real.cfg), "trace-begin"]
-    for (line, obs, st) in real.steps:
+    flat_lines = getattr(real, "flat_lines", {})
+    for i, (line, obs, st) in enumerate(real.steps):
+        if i in flat_lines:
+            # `send_messages` with raw arguments: a refused call is erased, an accepted one is its `send` event
+            # (C01_args_run_is_producer_run: the run IS the Producer run on those events)
+            if flat_lines[i] is None:
+                continue
+            line = flat_lines[i]
         if line.startswith("sendh "):
             line = "send " + " ".join(line.split(" ")[1:5])
         tl.append("> " + line)
@@ -92,6 +99,11 @@ def evaluate(pid, runs, model=core.run_model, monitors=None):
     tl, ends, used = [], [], []
     for scn, real, _d, _f in out:
         mons = (MONITORS[pid] if monitors is None else monitors) if not has_hooks(real) else REENTRANT_MONITORS
+        if getattr(real, "sync_count", 0):
+            # a synchronous answer of the client is handled inside the reactor call that made the request (a timer, a
+            # tick): `scheduleFrom` ("while a tick is overdue nothing happens but timers firing") is an assumption on
+            # the environment that such a trace does not meet by construction - the wait bound is not claimed for it
+            mons = [m for m in mons if m != "c19-schedule"]
         used.append(mons)
         tl += trace_lines(real, mons)
         ends.append(len(tl) - 1)
@@ -178,6 +190,9 @@ def features(scn, real, hist):
             flags.add("tick-dispatch")
     if produces >= 2:
         flags.add("several-requests")
+    if getattr(real, "sync_count", 0):
+        flags.add("sync-answer")
+        hist["ev:prodone-synchronous"] += real.sync_count
     for f in flags:
         hist["scn:" + f] += 1
     return flags
@@ -189,7 +204,7 @@ NONTRIVIAL = {
     "C19": lambda f: bool({"cancel-effective", "stop-outstanding", "tick-dispatch"} & f),
 }
 RULES = {
-    "C01": "scripted environment: real Producer over the fake client; configurations acks in {0,1,-1}, batched or not, codec none/gzip, attempt limit 0..10, round-robin/hashed; sends over 1-3 topics with null/empty/short/large values and a small key set; each client request completed with a ClientIface result kind (responses with error codes incl. codes persisting to the limit, failed payloads, total failures, empty/None, unaccounted payloads), cancels, stop with the real client's cancel outcomes, timers. non-trivial = a produce completion (or stop) fired at least one send Deferred. distinct = by content hash of the event list.",
+    "C01": "scripted environment: real Producer over the fake client; configurations acks in {0,1,-1}, batched or not, codec none/gzip, attempt limit 0..10, round-robin/hashed; sends over 1-3 topics with null/empty/short/large values and a small key set; each client request completed with a ClientIface result kind (responses with error codes incl. codes persisting to the limit, failed payloads, total failures, empty/None, unaccounted payloads), cancels, stop with the real client's cancel outcomes, timers; in a fifth of the scenarios the client answers some produce requests SYNCHRONOUSLY (already fired Deferreds: one by one, or every request of a stretch); 6% of the send_messages calls carry arguments of arbitrary Python types (ill-typed topic/key/msgs/elements, str or bytes objects as msgs, tuples); retry intervals 0..60 s, attempt limits up to 25. non-trivial = a produce completion (or stop) fired at least one send Deferred. distinct = by content hash of the event list.",
     "C09": "as C01 with more retries and several topics/partitions; non-trivial = at least one retry produce request, or several produce requests with merged sends.",
     "C19": "as C01 biased to batching (every_n/b/t incl. disabled and negative), cancels and stop; non-trivial = an effective cancel, a stop with outstanding sends, or a dispatch by the periodic tick.",
 }
@@ -266,11 +281,15 @@ def exh_options(real, events, nsend, hooks=False):
     """the alphabet enabled after `events` (looked up in the real objects' state).  hooks: every send is also
     offered with a re-entrant callback - stop(), cancel of the oldest send, another send_messages"""
     opts = []
-    sent = sum(1 for e in events if e[0] in ("send", "sendh"))
+    sent = sum(1 for e in events if e[0] in ("send", "sendh", "sendraw"))
     if sent < nsend:
         sid = real.next_sid
         key = "6b" if real.cfg["partitioner"] == "hashed" else None
         opts.append([["send", sid, sent % 2, key, [10]]])
+        if sent == 0:
+            # `send_messages` with raw arguments: one refused call (a str key), one accepted (a tuple of bytes)
+            opts.append([["sendraw", "s2:%d" % (sent % 2), "o", "S10", 0]])
+            opts.append([["sendraw", "s2:%d" % (sent % 2), "N" if key is None else "b" + key, "S10,n", 1]])
         if hooks:
             opts.append([["sendh", sid, sent % 2, key, [10], [["x"]]]])
             opts.append([["sendh", sid, sent % 2, key, [10], [["c", 0]]]])
@@ -436,7 +455,7 @@ def scripted(ctx, res, pid, n_quick, n_thorough):
 
 
 def run(ctx, res, pid):
-    scripted(ctx, res, pid, n_quick=6000, n_thorough=240000)
+    scripted(ctx, res, pid, n_quick=5000, n_thorough=240000)
     try:
         from harness.lib import producer_fullstack as FS
     except ImportError:
